@@ -33,6 +33,7 @@ Values as Python data: int for u/i/b, float for f, ``None`` for void, list for a
 """
 import math
 import pathlib
+import re
 import struct
 
 import pydsdl
@@ -496,6 +497,33 @@ def _section(rng, prof, pool, kind_union, allow_empty):
                 body.append(f"void{v}")
                 total += v
         rng.shuffle(body)
+        uid = [len(fields)]
+
+        def fname():
+            uid[0] += 1
+            return f"f{uid[0] + 20}"
+        # (a) a composite directly after byte-sized fields that start unaligned: [bool|uintN] [uint8|uint16|uint8[k]] composite
+        if pool and rng.random() < prof.get("p_pattern_align", 0.3):
+            ref = rng.choice(pool)
+            lead = rng.choice(["bool", f"uint{rng.choice([1, 2, 3, 5, 7, 9, 13])}", f"int{rng.choice([2, 3, 6, 11])}"])
+            mid = rng.choice(["uint8", "uint16", "int8", "uint8[2]", "uint32", "float16", "uint8", "uint16"])
+            trio = [f"{lead} {fname()}", f"{mid} {fname()}", f"{ref['text']} {fname()}"]
+            at = rng.randint(0, len(body))
+            body[at:at] = trio
+            total += 64 + 32 + ref["max"] + 16
+        # (b) empty composites (empty sealed type / @extent 0) as first, middle or LAST field
+        empties = [r for r in pool if r["max"] <= 32]
+        if empties and rng.random() < prof.get("p_pattern_empty", 0.25):
+            for where in rng.sample(["first", "middle", "last", "last"], rng.randint(1, 2)):
+                ref = rng.choice(empties)
+                line = f"{ref['text']} {fname()}"
+                if where == "first":
+                    body.insert(0, line)
+                elif where == "last":
+                    body.append(line)
+                else:
+                    body.insert(rng.randint(0, len(body)), line)
+                total += ref["max"] + 8
         # conservative upper bound: every field padded to 8
         mx = total + 8
     if rng.random() < prof["p_constants"]:
@@ -516,6 +544,10 @@ def generate(rng, out_dir, n_types=30, root_name="vns", profile=None):
     subs = ["", "sa", "sb", "sb/deep"]
     dropped = []
     used_subject, used_service = set(), set()
+    for f in root.rglob("*.dsdl"):       # regression types copied into the root beforehand keep their port-IDs
+        m = re.match(r"^(\d+)\.", f.name)
+        if m:
+            (used_service if re.search(r"(?m)^---", f.read_text()) else used_subject).add(int(m.group(1)))
     pool = []        # referencable composites: {'text','max'}
     counter = [0]
     layers = max(1, prof["layers"])
@@ -552,7 +584,8 @@ def generate(rng, out_dir, n_types=30, root_name="vns", profile=None):
             prefix = ""
             if force_port or rng.random() < prof["p_fixed_port"]:
                 while True:
-                    pid = rng.randint(0, 511 if is_service else 8191)
+                    top = 511 if is_service else 8191
+                    pid = rng.choice([0, top, rng.randint(0, top), rng.randint(0, top)])
                     s = used_service if is_service else used_subject
                     if pid not in s:
                         s.add(pid); break
